@@ -110,6 +110,13 @@ class ExprGen:
             return ("num", v if v < 2**63 else 2**63 - 1)
         return ("num", r.randrange(0, 2**63))
 
+    def rbound(self):
+        """bound of a random(..): mostly wide ranges, so that two generators (or a shifted draw) give different values"""
+        r = self.rng
+        if r.random() < 0.65:
+            return ("num", r.choice([1000003, 2**20, 2**31, 2**40, 2**62, 2**63 - 1]))
+        return ("num", r.choice([2, 3, 10, 100]))
+
     def atom(self):
         r = self.rng
         pool = []
@@ -131,7 +138,7 @@ class ExprGen:
             return self.atom()
         x = r.random()
         if self.allow_random and r.random() < 0.08:
-            return ("bin", r.choice(["&", "*", "|", "+"]), ("num", r.choice([0, 0, 1])), ("fn", "random", [("num", r.choice([2, 3, 10, 100]))]))
+            return ("bin", r.choice(["&", "*", "|", "+"]), ("num", r.choice([0, 0, 1])), ("fn", "random", [self.rbound()]))
         if x < 0.65:
             ops = BINOPS if self.allow_div else [o for o in BINOPS if o not in "/%"]
             op = r.choice(ops)
@@ -148,7 +155,7 @@ class ExprGen:
             if self.allow_random and r.random() < 0.5:
                 # draws inside the branches of ite: only the selected one may consume a draw
                 def rnd():
-                    return ("fn", "random", [("num", r.choice([2, 3, 10, 100]))])
+                    return ("fn", "random", [self.rbound()])
                 return ("fn", "ite", [self.gen(depth - 1), rnd() if r.random() < 0.8 else self.gen(depth - 1),
                                       rnd() if r.random() < 0.8 else self.gen(depth - 1)])
             return ("fn", "ite", [self.gen(depth - 1), self.gen(depth - 1), self.gen(depth - 1)])
@@ -163,7 +170,10 @@ class ExprGen:
                 return ("fn", "random", [self.gen(depth - 1)])
             if y < 0.2:
                 return ("fn", "random", [r.choice([("num", 0), ("num", 1), ("un", "-", ("num", r.choice([1, 5]))), ("num", 2)])])
-            return ("fn", "random", [("num", r.choice([2, 3, 10, 100, 2**31, 2**62]))])
+            if y < 0.3:
+                # a draw whose bound is itself drawn (the generator is borrowed while the bound is evaluated)
+                return ("fn", "random", [("bin", "+", ("fn", "random", [self.rbound()]), ("num", 2))])
+            return ("fn", "random", [self.rbound()])
         return self.atom()
 
 
@@ -348,6 +358,10 @@ class ProgGen:
                 if kind < 0.5:
                     v = self.fresh("i") if r.random() < 0.8 or not scope else r.choice(scope)
                     bound = self.loop_bound(scope)
+                    if v in scope and r.random() < 0.6:
+                        # the counter shadows an existing variable and the bound mentions that name: the bound is
+                        # evaluated BEFORE the counter is bound, so it sees the outer value
+                        bound = ("bin", "&", ("bin", "+", ("var", v), ("num", r.randrange(0, 3))), ("num", 3))
                     body = self.block(scope + [v], depth + 1, r.randrange(1, 4))
                     out.append(("loop", v, bound, body))
                     self.dead.append(v)
